@@ -8,6 +8,7 @@ enclosing obligation family *undecided* -- never passed, never a violation.
 """
 import ast as pyast
 import builtins as _builtins
+import textwrap
 
 import z3
 
@@ -214,9 +215,10 @@ class ExtVal:
 class Obj:
     """Instance of a repository class (visitor, exception)."""
 
-    def __init__(self, cls_qualname, attrs=None):
+    def __init__(self, cls_qualname, attrs=None, unmodelled=()):
         self.cls = cls_qualname
         self.attrs = dict(attrs or {})
+        self.unmodelled = frozenset(unmodelled)   # fields the real constructor sets that the model leaves out
 
     def __repr__(self):
         return f"Obj({self.cls.rsplit('.', 1)[-1]}, {self.attrs})"
@@ -2243,11 +2245,36 @@ class Engine:
                 return self.call_function(path, FuncRef(m, defcls=c), [self_val] + args, kwargs, self_val=self_val)
         raise Unsupported(f"super().{name} not found")
 
+    def init_fields(self, cls):
+        """instance fields assigned (`self.X = ...`) by the repository constructors on the MRO of `cls`"""
+        cache = self.__dict__.setdefault("_init_fields", {})
+        if cls not in cache:
+            out = set()
+            cf = self.facts.classes.get(cls)
+            for c in (cf["mro"] if cf else []):
+                m = (self.facts.classes.get(c) or {}).get("members", {}).get("__init__")
+                if not m or not m.get("source"):
+                    continue
+                try:
+                    tree = pyast.parse(textwrap.dedent(m["source"]))
+                except SyntaxError:
+                    continue
+                for n in pyast.walk(tree):
+                    if isinstance(n, pyast.Attribute) and isinstance(n.value, pyast.Name) and n.value.id == "self" and \
+                            isinstance(n.ctx, pyast.Store):
+                        out.add(n.attr)
+            cache[cls] = out
+        return cache[cls]
+
     # ---- attribute access ---------------------------------------------------------------
     def getattr(self, path, o, name, frame=None, default=_builtins.NotImplemented):
         from . import pybuiltins
         r = pybuiltins.getattr_value(self, path, o, name, frame)
         if r is pybuiltins.MISSING:
+            if isinstance(o, Obj) and (name in getattr(o, "unmodelled", ()) or name in self.init_fields(o.cls)):
+                # the constructor stores this field, the contract's object model says nothing about it: not a violation
+                raise Unsupported(f"reads the instance field `{name}`, which the constructor sets but the contract's object model "
+                                  "does not cover (its relation to the modelled fields is not specified)")
             if default is not _builtins.NotImplemented:
                 return default
             self.throw(path, "AttributeError", name)
